@@ -3,6 +3,7 @@
 (* Trace = {scn, pool, I, pending, fcount, events:[...]}; every event carries t (eighths) *)
 (*  {e:"Step", t, p, called, argsok, fcount}   one iteration of run(), as observed         *)
 (*  {e:"Set", t, attr, v} {e:"Write", t, v}    environment                                 *)
+(*  {e:"Quit", t}                              a spawned child of a FactoryPool gives up    *)
 (*  {e:"Raised", t}                            an exception left run()                     *)
 (*  {e:"End", t}                               the run was stopped                         *)
 EXTENDS Periodic, Json, IOUtils, TLCExt
@@ -62,6 +63,15 @@ TWrite == /\ Ev.e = "Write"
           /\ UNCHANGED <<scn, pool, prev, called, I, dh, raised, fcount, argsok>>
           /\ nc' = (nc \/ ~TimeOk(Ev.t))
 
+TQuit == /\ Ev.e = "Quit"
+         /\ now' = Ev.t
+         /\ fcount' = fcount - 1
+         /\ act' = [name |-> "Quit", iv |-> 0, attr |-> "", v |-> 0]
+         /\ nenv' = nenv + 1
+         /\ steps' = steps \o Skipped(Ev.t) /\ nextw' = NextAfter(Ev.t)
+         /\ UNCHANGED <<scn, pool, prev, called, I, dh, raised, pending, argsok>>
+         /\ nc' = (nc \/ ~(TimeOk(Ev.t) /\ fcount >= 2))
+
 TRaised == /\ Ev.e = "Raised"
            /\ now' = Ev.t /\ raised' = TRUE /\ nc' = TRUE
            /\ act' = [name |-> "Raised", iv |-> 0, attr |-> "", v |-> 0]
@@ -74,7 +84,7 @@ TEnd == /\ Ev.e = "End"
         /\ UNCHANGED <<scn, pool, prev, called, I, dh, raised, pending, fcount, nenv, argsok>>
         /\ nc' = (nc \/ ~TimeOk(Ev.t))
 
-TraceNext == Step_ /\ (TStep \/ TSet \/ TWrite \/ TRaised \/ TEnd)
+TraceNext == Step_ /\ (TStep \/ TSet \/ TWrite \/ TQuit \/ TRaised \/ TEnd)
 TraceSpec == TraceInit /\ [][TraceNext]_tvars
 
 Mon(name, ok) == ok \/ PrintT(<<"PV", tid, l - 1, name>>)
